@@ -167,3 +167,22 @@ func invParser(p *Parser) bool {
 //@ modifies p.data, p.pos
 //@ allocates [input] len(p.input) + 1
 //@ ensures [inv] invParser(p)
+
+// --- recursion: every nesting level raises p.depth by one and no call is made above the limit, so the
+//     parseItem -> parseList -> parseItem recursion is at most MaxListDepth+1 frames deep ---
+
+func invDepth(p *Parser) bool { return 0 <= p.depth && p.depth <= 64 }
+
+//@ func (*Parser).parseItem
+//@ requires invParser(p) && invDepth(p)
+//@ modifies p.data, p.pos, p.depth
+//@ ensures [inv]   invParser(p) && p.depth == old(p.depth)
+//@ ensures [moves] result1 == nil ==> p.pos > old(p.pos)
+
+//@ func (*Parser).parseList
+//@ requires invParser(p) && invDepth(p) && 0 <= size && size <= 2147483647
+//@ modifies p.data, p.pos, p.depth
+//@ allocates [input] len(p.input) + 1
+//@ ensures [inv]   invParser(p) && p.depth == old(p.depth)
+//@ ensures [deep]  old(p.depth) >= 64 ==> result1 != nil
+//@ loop 1 invariant [inv] invParser(p) && p.depth == old(p.depth)+1 && p.depth <= 64
